@@ -27,14 +27,16 @@ Tie    : both Coq models (binary64 instance) are run on the same inputs and ever
          compared (Jolt: point, squared length, bit set, both outcomes of the final
          comparison; original: point, squared distance, weights, index order).
          Exact streams (integer lattices / grids: every dot product, cross product and
-         cofactor is exact in binary64, so BLAS summation order or FMA cannot matter): Jolt
-         outputs must be bit-identical (v_len_sq = np.dot(v, v) within 2 ulp of the exact
-         value).  Otherwise (and for the original solver always, whose candidates are compared
-         through BLAS-computed squared distances) the discrete outputs are compared only where
-         the model's own answer is unchanged under 8 random relative 2^-50 perturbations of the
-         input (decision margins clear), the continuous ones must lie within 4x the spread over
-         those perturbations + 16 ulp of the scale.  A mismatch on a stable case is re-examined
-         with 40 more perturbations before it counts.
+         cofactor is exact in binary64, so BLAS summation order or FMA cannot matter): the only
+         rounding-dependent decisions are comparisons between squared distances of candidate
+         points; the models flag near ties of those (codes 70/71/170).  Without such a flag the
+         discrete outputs (and for Jolt the point, for the original solver the weights) must be
+         bit-identical; BLAS-computed quantities (np.dot(v, v); bary.dot(points)) within a few ulp.
+         Other streams: the discrete outputs are compared only where the model's own answer is
+         unchanged under 8 random relative 2^-50 perturbations of the input (decision margins
+         clear), the continuous ones must lie within 4x the spread over those perturbations
+         + 16 ulp of the scale.  A mismatch on a stable case is re-examined with 40 more
+         perturbations before it counts.
 """
 import itertools
 import json
@@ -315,7 +317,7 @@ def fflat(pts):
 
 
 def nlist(xs):
-    return "[" + ";".join(str(int(i)) for i in xs) + "]%nat"
+    return flist([float(i) for i in xs])
 
 
 def wlist(Ws):
@@ -471,7 +473,7 @@ def _isfinite_all(xs):
 
 def prepare(args):
     """case + implementation result -> Coq expression (certificates and model runs) + python-side data."""
-    pts, r, perts, jolt_perts = args
+    pts, r, perts = args
     k = len(pts)
     S, lam, q = oracle(pts)
     Wq = round_weights(lam)
@@ -505,21 +507,21 @@ def prepare(args):
         Wp = round_weights(lamp)
         parts.append(f"judge {N} {MW} {TB} Y {flist(p)} {nlist(sub)} {wlist(Wp)} {nlist(S)} WQ")
         info["layout"].append(name)
-        info["check"][name] = sum(int(Fr(x) * (1 << N)) for x in flatY + p) + sum(Wp) + sum(Wq)
+        info["check"][name] = (sum(int(Fr(x) * (1 << N)) for x in flatY + p) + sum(Wp) + sum(Wq) + sum(sub) + sum(S)) % (1 << 50)
         # magnitudes (floats, for messages and for the error bounds of the known classes only)
         npn = math.sqrt(float(sum(Fr(x) * Fr(x) for x in p)))
         z = [sum(l * Fr(pts[i][c]) for l, i in zip(lamp, sub)) for c in range(3)]
         hd = math.sqrt(float(sum((Fr(a) - b) ** 2 for a, b in zip(p, z))))
         info["mag"][name] = dict(norm=npn, err=abs(npn - info["nq"]), hull=hd)
-    certs = "[" + "; ".join(parts) + "]" if parts else "(@nil (list bool * Z))"
-    bary = "(false, 0%Z)"
+    certs = "[" + "; ".join(parts) + "]" if parts else "(@nil (list bool * float))"
+    bary = "(false, 0%float)"
     if "orig" in sol:
         p, sub = sol["orig"]
         w = unhex(o["bary"])
         Mb = scale_bits(w)
         bary = f"judge_bary {N} {Mb} Y {flist(p)} {nlist(sub)} {flist(w)}"
-        info["check"]["bary"] = sum(int(Fr(x) * (1 << Mb)) for x in w)
-    jm = "[" + "; ".join(["jolt_ft Y"] + [f"jolt_ft {fflat(pp)}" for pp in jolt_perts]) + "]"
+        info["check"]["bary"] = sum(int(Fr(x) * (1 << Mb)) for x in w) % (1 << 50)
+    jm = "[" + "; ".join(["jolt_ft Y"] + [f"jolt_ft {fflat(pp)}" for pp in perts]) + "]"
     om = "[" + "; ".join(["orig_ft Y"] + [f"orig_ft {fflat(pp)}" for pp in perts]) + "]"
     expr = (f"let Y := {fflat(pts)} in let WQ := {wlist(Wq)} in "
             f"({certs}, {bary}, {jm}, {om}, jolt_prev Y)")
@@ -552,9 +554,8 @@ def evaluate(R, cases, results, tag, per_file):
     """Prepare witnesses, evaluate certificates and model runs in Coq.  Returns one dict per case."""
     jobs = []
     for c, r in zip(cases, results):
-        perts = [perturb(R.rng, c["pts"]) for _ in range(N_PERT)]
-        c["_perts"] = perts
-        jobs.append((c["pts"], r, perts, [] if is_exact_stream(c["gen"]) else perts))
+        perts = [] if is_exact_stream(c["gen"]) else [perturb(R.rng, c["pts"]) for _ in range(N_PERT)]
+        jobs.append((c["pts"], r, perts))
     with ProcessPoolExecutor(max_workers=cm.NCPU) as ex:
         prepared = list(ex.map(prepare, jobs, chunksize=64))
     outs = cm.coq_eval_lines(PID, HEADER, [p[0] for p in prepared], tag=tag, per_file=per_file)
@@ -572,9 +573,9 @@ def evaluate(R, cases, results, tag, per_file):
             e["certs"]["bary"] = val[1][0]
             if val[1][1] != info["check"]["bary"]:
                 e["decode_bad"].append("bary")
-        e["jolt_model"] = val[2]
-        e["orig_model"] = val[3]
-        e["jolt_prev"] = val[4]
+        e["jolt_model"] = [norm_jolt(m) for m in val[2]]
+        e["orig_model"] = [norm_orig(m) for m in val[3]]
+        e["jolt_prev"] = dict(st=int(val[4][0]) - 1, trace=[int(x) for x in val[4][1:]])
         ev.append(e)
     return ev
 
@@ -642,92 +643,124 @@ def judge(case, r, e):
     return fails, problems
 
 
-def _spread(vals0, vals_list):
+def norm_jolt(m):
+    """printed value of SimplexRun.jolt_ft -> dict"""
+    a, tr = m
+    d = dict(st=int(a[0]) - 1, trace=[int(x) for x in tr])
+    if d["st"] == 1:
+        d.update(v=[float(x) for x in a[1:4]], len=float(a[4]), bits=int(a[5]))
+    return d
+
+
+def norm_orig(m):
+    """printed value of SimplexRun.orig_ft -> dict"""
+    a, b, o, tr = m
+    d = dict(st=int(a[0]) - 1, trace=[int(x) for x in tr])
+    if d["st"] == 1:
+        d.update(v=[float(x) for x in a[1:4]], d2=float(a[4]), bary=[float(x) for x in b], ord=[int(x) for x in o])
+    return d
+
+
+def _spread(x0, xs):
     """per-component max |x_i - x_0| over the perturbed model runs"""
-    sp = [0.0] * len(vals0)
-    for vs in vals_list:
-        for i, (a, b) in enumerate(zip(vals0, vs)):
-            sp[i] = max(sp[i], abs(float(a) - float(b)))
+    sp = [0.0] * len(x0)
+    for x in xs:
+        for i, (a, b) in enumerate(zip(x0, x)):
+            sp[i] = max(sp[i], abs(a - b))
     return sp
 
 
 def compare_jolt(case, r, e, extra=None):
     """Correspondence model (binary64) vs implementation for the Jolt solver.
-    Returns (status, detail): status in ok | skipped-unstable | skipped-exc | suspect | mismatch."""
+    Returns (status, detail): status in ok | skipped-unstable | skipped-tie | skipped-exc | suspect | mismatch."""
     j = r["jolt"]
     ms = e["jolt_model"] + (extra or [])
     m = ms[0]
     if "exc" in j:
         return "skipped-exc", ""
-    if m[0] != (1 if j["success"] else 0):
-        return "mismatch", f"success flag: impl {j['success']} model {m[0]}"
+    if (m["st"] == 1) != bool(j["success"]):
+        return "mismatch", f"success flag: impl {j['success']} model status {m['st']}"
     if not j["success"]:
         return "ok", ""
     pv = e["jolt_prev"]
-    if j["ok_prev_equal"] or not j["ok_prev_next"] or pv[0] != 0:
+    if j["ok_prev_equal"] or not j["ok_prev_next"] or pv["st"] != 0:
         return "mismatch", (f"final comparison v_len_sq < prev: impl with prev=v_len_sq -> {j['ok_prev_equal']}, "
-                            f"with prev=next(v_len_sq) -> {j['ok_prev_next']}; model with prev=v_len_sq -> {pv[0]}")
+                            f"with prev=next(v_len_sq) -> {j['ok_prev_next']}; model with prev=v_len_sq -> {pv['st']}")
     v = unhex(j["v"])
     vl = float.fromhex(j["v_len_sq"])
     ex2 = sum(Fr(x) * Fr(x) for x in v)
     if abs(Fr(vl) - ex2) > Fr(4, 2 ** 53) * ex2:
         return "mismatch", f"v_len_sq {vl!r} is not np.dot(v, v) = {float(ex2)!r} within 2 ulp"
-    mv = [float(x) for x in m[1][:3]]
     if is_exact_stream(case["gen"]):
-        if m[2] != j["bits"]:
-            return "mismatch", f"bit set: impl {j['bits']} model {m[2]} (exact stream)"
-        if mv != v:
-            return "mismatch", f"point: impl {v} model {mv} (exact stream)"
-        if abs(float(m[1][3]) - vl) > 4 * 2.0 ** -53 * vl:
-            return "mismatch", f"v_len_sq: impl {vl!r} model {m[1][3]!r}"
-        return "ok", ""
+        if 70 in m["trace"] or 71 in m["trace"]:
+            return "skipped-tie", ""
+        if m["bits"] != j["bits"]:
+            return "mismatch", f"bit set: impl {j['bits']} model {m['bits']} (exact stream, no near tie)"
+        if m["v"] != v:
+            return "mismatch", f"point: impl {v} model {m['v']} (exact stream, no near tie)"
+        if abs(m["len"] - vl) > 4 * 2.0 ** -53 * vl:
+            return "mismatch", f"v_len_sq: impl {vl!r} model {m['len']!r}"
+        return "ok-exact", ""
     perts = ms[1:]
-    stable = all(pm[0] == 1 and pm[2] == m[2] for pm in perts)
+    stable = all(pm["st"] == 1 and pm["bits"] == m["bits"] for pm in perts)
     if not stable:
         return "skipped-unstable", ""
-    if m[2] != j["bits"]:
-        return "suspect", f"bit set: impl {j['bits']} model {m[2]} (stable under {len(perts)} perturbations)"
+    if m["bits"] != j["bits"]:
+        return "suspect", f"bit set: impl {j['bits']} model {m['bits']} (stable under {len(perts)} perturbations)"
     L = max(abs(x) for y in case["pts"] for x in y)
-    sp = _spread(m[1], [pm[1] for pm in perts])
+    sp = _spread(m["v"] + [m["len"]], [pm["v"] + [pm["len"]] for pm in perts])
     for i in range(3):
-        if abs(v[i] - mv[i]) > 4 * sp[i] + 16 * EPS * L:
-            return "suspect", f"point[{i}]: impl {v[i]!r} model {mv[i]!r} spread {sp[i]!r}"
-    if abs(vl - float(m[1][3])) > 4 * sp[3] + 16 * EPS * max(vl, float(m[1][3])):
-        return "suspect", f"v_len_sq: impl {vl!r} model {m[1][3]!r} spread {sp[3]!r}"
+        if abs(v[i] - m["v"][i]) > 4 * sp[i] + 16 * EPS * L:
+            return "suspect", f"point[{i}]: impl {v[i]!r} model {m['v'][i]!r} spread {sp[i]!r}"
+    if abs(vl - m["len"]) > 4 * sp[3] + 16 * EPS * max(vl, m["len"]):
+        return "suspect", f"v_len_sq: impl {vl!r} model {m['len']!r} spread {sp[3]!r}"
     return "ok", ""
 
 
 def compare_orig(case, r, e, extra=None):
-    """Correspondence for the original solver's backup procedure (always stability-gated)."""
+    """Correspondence for the original solver's backup procedure."""
     o = r["orig"]
     ms = e["orig_model"] + (extra or [])
     m = ms[0]
     if "exc" in o:
         return "skipped-exc", ""
-    if m[0] != 1:
-        return "mismatch", f"model status {m[0]}"
-    perts = ms[1:]
-    stable = all(pm[0] == 1 and pm[3] == m[3] for pm in perts)
-    if not stable:
-        return "skipped-unstable", ""
-    if m[3] != o["idx"]:
-        return "suspect", f"ordered indices: impl {o['idx']} model {m[3]} (stable under {len(perts)} perturbations)"
+    if m["st"] != 1:
+        return "mismatch", f"model status {m['st']}"
     v = unhex(o["v"])
     d2 = float.fromhex(o["dist_sq"])
     w = unhex(o["bary"])
     L = max(abs(x) for y in case["pts"] for x in y)
-    sp = _spread(m[1], [pm[1] for pm in perts])
+    if is_exact_stream(case["gen"]):
+        if 170 in m["trace"]:
+            return "skipped-tie", ""
+        if m["ord"] != o["idx"]:
+            return "mismatch", f"ordered indices: impl {o['idx']} model {m['ord']} (exact stream, no near tie)"
+        if m["bary"] != w:
+            return "mismatch", f"barycentric_coordinates: impl {w} model {m['bary']} (exact stream, no near tie)"
+        for i in range(3):
+            if abs(v[i] - m["v"][i]) > 8 * EPS * L:
+                return "mismatch", f"search_direction[{i}]: impl {v[i]!r} model {m['v'][i]!r}"
+        if abs(d2 - m["d2"]) > 32 * EPS * L * (math.sqrt(max(d2, 0.0)) + 8 * EPS * L):
+            return "mismatch", f"distance_squared: impl {d2!r} model {m['d2']!r}"
+        return "ok-exact", ""
+    perts = ms[1:]
+    stable = all(pm["st"] == 1 and pm["ord"] == m["ord"] for pm in perts)
+    if not stable:
+        return "skipped-unstable", ""
+    if m["ord"] != o["idx"]:
+        return "suspect", f"ordered indices: impl {o['idx']} model {m['ord']} (stable under {len(perts)} perturbations)"
+    sp = _spread(m["v"] + [m["d2"]], [pm["v"] + [pm["d2"]] for pm in perts])
     for i in range(3):
-        if abs(v[i] - float(m[1][i])) > 4 * sp[i] + 16 * EPS * L:
-            return "suspect", f"search_direction[{i}]: impl {v[i]!r} model {m[1][i]!r} spread {sp[i]!r}"
-    if abs(d2 - float(m[1][3])) > 4 * sp[3] + 16 * EPS * max(d2, float(m[1][3])):
-        return "suspect", f"distance_squared: impl {d2!r} model {m[1][3]!r} spread {sp[3]!r}"
-    spw = _spread(m[2], [pm[2] for pm in perts])
-    if len(w) != len(m[2]):
-        return "suspect", f"number of weights: impl {len(w)} model {len(m[2])}"
+        if abs(v[i] - m["v"][i]) > 4 * sp[i] + 16 * EPS * L:
+            return "suspect", f"search_direction[{i}]: impl {v[i]!r} model {m['v'][i]!r} spread {sp[i]!r}"
+    if abs(d2 - m["d2"]) > 4 * sp[3] + 32 * EPS * L * (math.sqrt(max(d2, 0.0)) + 8 * EPS * L):
+        return "suspect", f"distance_squared: impl {d2!r} model {m['d2']!r} spread {sp[3]!r}"
+    if len(w) != len(m["bary"]):
+        return "suspect", f"number of weights: impl {len(w)} model {len(m['bary'])}"
+    spw = _spread(m["bary"], [pm["bary"] for pm in perts])
     for i in range(len(w)):
-        if abs(w[i] - float(m[2][i])) > 4 * spw[i] + 16 * EPS:
-            return "suspect", f"barycentric_coordinates[{i}]: impl {w[i]!r} model {m[2][i]!r} spread {spw[i]!r}"
+        if abs(w[i] - m["bary"][i]) > 4 * spw[i] + 16 * EPS:
+            return "suspect", f"barycentric_coordinates[{i}]: impl {w[i]!r} model {m['bary'][i]!r} spread {spw[i]!r}"
     return "ok", ""
 
 
@@ -830,7 +863,7 @@ def run(tier, seed, replay=None):
     known = {e["id"]: e for e in R.known}
     distinct = set()
     hist, fail_hist = {}, {}
-    corr = {s: dict(ok=0, skipped_unstable=0, skipped_exc=0, mismatch=0, exact_compared=0) for s in ("jolt", "orig")}
+    corr = {s: dict(ok=0, skipped_unstable=0, skipped_tie=0, skipped_exc=0, mismatch=0, exact_compared=0) for s in ("jolt", "orig")}
     suspects = []
     cov_codes = dict(jolt=set(), orig=set())
     n_problems = 0
@@ -855,18 +888,20 @@ def run(tier, seed, replay=None):
                                                    err_rel=err_rel, aspect=geo["aspect"], plane_band=geo["plane_band"],
                                                    orig_band=geo["orig_band"]), site=site_of(solver))
         for m in e["jolt_model"]:
-            cov_codes["jolt"].update(m[3])
-        cov_codes["jolt"].update(e["jolt_prev"][1])
+            cov_codes["jolt"].update(m["trace"])
+        cov_codes["jolt"].update(e["jolt_prev"]["trace"])
         for m in e["orig_model"]:
-            cov_codes["orig"].update(m[4])
+            cov_codes["orig"].update(m["trace"])
         for solver, cmp in (("jolt", compare_jolt), ("orig", compare_orig)):
             st, detail = cmp(c, r, e)
-            if st == "ok":
+            if st in ("ok", "ok-exact"):
                 corr[solver]["ok"] += 1
-                if solver == "jolt" and is_exact_stream(g):
+                if st == "ok-exact":
                     corr[solver]["exact_compared"] += 1
             elif st == "skipped-unstable":
                 corr[solver]["skipped_unstable"] += 1
+            elif st == "skipped-tie":
+                corr[solver]["skipped_tie"] += 1
             elif st == "skipped-exc":
                 corr[solver]["skipped_exc"] += 1
             elif st == "suspect":
@@ -887,7 +922,7 @@ def run(tier, seed, replay=None):
         try:
             outs = cm.coq_eval_lines(PID, HEADER, exprs, tag="recheck", per_file=10)
             for (i, solver, detail), o in zip(suspects, outs):
-                extra = parse_coq_value(o)
+                extra = [(norm_jolt if solver == "jolt" else norm_orig)(m) for m in parse_coq_value(o)]
                 cmp = compare_jolt if solver == "jolt" else compare_orig
                 st, detail2 = cmp(cases[i], results[i], ev[i], extra)
                 if st in ("suspect", "mismatch"):
